@@ -496,3 +496,23 @@ Example owned_run_rejects_view_of_source :
   exists st0, step w_st (OClone 0) = (st0, ORefs [1]) /\
               owned_run [1] st0 [OView 0 w_T; OMap 0 2] = None.
 Proof. eexists. split; vm_compute; reflexivity. Qed.
+
+(** the dense values the correspondence check compares are a function of the denotation *)
+Lemma dense_of_den st p : dense_of (den_pt st p) = dense st p.
+Proof. reflexivity. Qed.
+
+(** the hypotheses of [step_frame_den] are satisfiable: the source of a clone while the clone is written *)
+Example frame_den_example :
+  let st := fst (step w_st (OClone 0)) in
+  valid st 0 /\
+  (forall r, In r (reach_objs st 0) -> ~ In r (mutates st (OMap 0 1))) /\
+  (forall s, In s (sids_of st (reach_objs st 0)) -> ~ In s (sids_of st (mutates st (OMap 0 1)))) /\
+  den (fst (step st (OMap 0 1))) 1 <> den st 1.
+Proof.
+  cbv zeta. split; [|split; [|split]].
+  - intros r Hr. vm_compute in Hr. destruct Hr as [<-|[]]. split; [vm_compute; lia|].
+    intros p Hp. vm_compute in Hp. inversion Hp. vm_compute. lia.
+  - intros r Hr. vm_compute in Hr. destruct Hr as [<-|[]]. vm_compute. intros [H|[]]. discriminate.
+  - intros s Hs. vm_compute in Hs. destruct Hs as [<-|[]]. vm_compute. intros [H|[]]. discriminate.
+  - vm_compute. intros H. discriminate H.
+Qed.
